@@ -17,7 +17,7 @@ use core::time::Duration;
 use futures_core::Stream;
 
 pub const NH: usize = 3; // handles per side
-pub const NF: usize = 2; // futures in flight per side
+pub const NF: usize = 3; // futures in flight per side
 pub const ORDER_MAX: usize = 12;
 
 // ---- result codes -------------------------------------------------------
@@ -208,8 +208,8 @@ impl<T: Payload + 'static> Ctx<T> {
         Ctx {
             s: [Some(s), None, None],
             r: [Some(r), None, None],
-            sf: [None, None],
-            rf: [None, None],
+            sf: [None, None, None],
+            rf: [None, None, None],
             stream: None,
             claimed: None,
             probe,
@@ -241,6 +241,13 @@ impl<T: Payload + 'static> Ctx<T> {
         self.plan[slot] = a;
         self.plan_thread[slot] = as_thread;
         model::arm(slot, on_thread, site);
+    }
+
+    /// like inject, firing at the nth (0-based) arrival at the site
+    pub fn inject_nth(&mut self, slot: usize, on_thread: u8, site: u16, nth: u8, as_thread: u8, a: Act) {
+        self.plan[slot] = a;
+        self.plan_thread[slot] = as_thread;
+        model::arm_nth(slot, on_thread, site, nth);
     }
 
     pub fn abs(&self) -> Abs {
